@@ -16,22 +16,27 @@ from .c06 import CapStream, NullWriter, _feed_and_run
 ID = "C08"
 EXTRACT = "ExC08"
 TECHNIQUE = (
-    "Coq proof (rstrip/partition/lstrip/index lemmas, reuse of the C06 framing theorem and the C02 resolver) about executable "
-    "models of the eleven name codecs; tied to the code by differential correspondence on a metacharacter-biased name generator "
-    "and by wire-level sessions over loopback comparing the backend tree with the expected one after every operation"
+    "Coq proof (rstrip/partition/lstrip/index lemmas, an induction over the quote-doubled directory string generalising the number "
+    "of pending quotes and the accumulator for the PWD parser loop, reuse of the C06 framing theorem and the C02 resolver) about "
+    "executable models of the eleven name codecs; tied to the code by differential correspondence on a metacharacter-biased name "
+    "generator (quote-bearing names are ordinary cases), a bounded-exhaustive stream over the PWD formatter/parser pair, and by "
+    "wire-level sessions over loopback comparing the backend tree with the expected one after every operation"
 )
 LEVEL_TEXT = (
     "C08_cmd_path_roundtrip, C08_cmd_path_resolved, C08_mlsd_name_roundtrip, C08_build_mlsx_shape, C08_mlst_name_roundtrip are "
-    "proved for every valid name (any length, any code points, any depth); the PWD round trip is refuted for names containing a "
-    "double quote (C08_pwd_roundtrip_refuted, finding F08) and proved for quote-free names (C08_pwd_roundtrip_partial); the LIST "
-    "fallback is proved for names without leading whitespace (C08_list_name_roundtrip_partial) and refuted otherwise "
-    "(C08_list_name_leading_space_refuted, finding F13). All Closed under the global context. The composed statement over whole "
-    "sessions is validated at wire level, not proved."
+    "proved for every valid name (any length, any code points, any depth); the PWD round trip is proved at full strength "
+    "(C08_pwd_roundtrip: every well-formed directory whose string has no LF, double quotes anywhere - leading, trailing, doubled, "
+    "runs - through Server.pwd's doubling, the C06 reply framing and the client's undoubling loop; C08_pwd_roundtrip_valid, "
+    "C08_pwd_line_roundtrip, C08_pwd_trailing_text_ignored); the LIST fallback is proved for names without leading whitespace "
+    "(C08_list_name_roundtrip_partial) and refuted otherwise (C08_list_name_leading_space_refuted, finding F13, not repaired: "
+    "inherent to the ls -l format). All Closed under the global context. The composed statement over whole sessions is validated "
+    "at wire level, not proved."
 )
 LEVEL_NOTE = (
     "Trusted: Coq kernel, extraction cross-checked with vm_compute, harness. Assumed: the utf-8 codec round-trips and commutes with "
-    "line splitting (C06). Modelled not verified: CPython str methods, pathlib (C02). Partial: name_transparent over sessions is "
-    "validated over loopback only; symlink branch of the LIST parser and date/mode parsing (C07) are outside."
+    "line splitting (C06). Modelled not verified: CPython str methods (str.replace with a one-character pattern as flat_map), "
+    "pathlib (C02). name_transparent over sessions is validated over loopback only; symlink branch of the LIST parser and "
+    "date/mode parsing (C07) are outside."
 )
 TRUSTED = [
     "codec assumption of C06 (utf-8 decode(encode(t)) = t, commutes with splitting at byte 10)",
@@ -130,6 +135,12 @@ def model_ppath(m):
     return [m[0], sx.txts(m[1])]
 
 
+def conv_mlsx(mo):
+    if mo[0] != 0:
+        return "ValueError"
+    return [model_ppath(mo[1][0]), {sx.txt(k): sx.txt(v) for k, v in mo[1][1]}]
+
+
 def shape(names):
     """coarse input shape for finding keys"""
     if any('"' in n for n in names):
@@ -207,8 +218,7 @@ def stream_codecs(ctx, xcheck):
         p_got, e_got = impl.client.parse_mlsx_line(line)
         ctx.case(("mlsd", name))
         ctx.traces_impl += 1
-        defer(55, [line.decode("utf-8")], "parse_mlsx_line", [canon_ppath(p_got), e_got],
-              lambda mo: [model_ppath(mo[0]), {sx.txt(k): sx.txt(v) for k, v in mo[1]}])
+        defer(55, [line.decode("utf-8")], "parse_mlsx_line", [canon_ppath(p_got), e_got], conv_mlsx)
         if p_got != P(name) or (P("/d") / p_got) != node:
             ctx.violation("MLSD line decoded to a different name", {"key": f"c08-mlsd-{shape([name])}", "name": name, "decoded": str(p_got)})
         cap = CapStream()
@@ -234,14 +244,76 @@ def stream_codecs(ctx, xcheck):
             sh = "leading-space" if name != name.lstrip() else ("other" if l_got is not None else "raises")
             ctx.violation("LIST line decoded to a different name", {"key": f"c08-list-{sh}", "name": name, "decoded": str(l_got)})
         impl.run(pio.rmdir(node) if i % 2 else pio.unlink(node))
-    # parser-only stream: hand-made PWD replies (quotes doubled, trailing text, no quotes)
-    raw = ['"/a"', ' "/a""b" is cwd', '"/a"""', '""', 'no quotes', ' "/a" "b"', '"/x""""y"', '"""', ' "a', '"/a""" x', '"/a" "" b']
+    # parser-only stream: listing lines WITHOUT a pathname (ValueError since the F12 repair; the caller never gets a '.' entry)
+    no_name = ["", " ", "Type=dir;", "Type=dir; ", "Type=dir;  \r\n", "Type=file;Size=1;\r\n", ";", "x", " x", "  x", "Type=dir;\tx", "a=b;\x0bx",
+               "Type=dir; \t", "\r\n", "=; y", "Type=dir;x y"]
+    for ln in no_name:
+        try:
+            p_got, e_got = impl.client.parse_mlsx_line(ln)
+            ic = [canon_ppath(p_got), e_got]
+        except ValueError:
+            ic = "ValueError"
+        ctx.case(("mlsx-noname", ln))
+        defer(55, [ln], "parse_mlsx_line(no name)", ic, conv_mlsx)
+    ls_head = "-rw-rw-rw- 1 none none 0 Jan  1 00:00"
+    no_name_ls = [ls_head, ls_head + " ", ls_head + "   \r\n", ls_head + " x", ls_head + "  x \r\n", "drwxrwxrwx 2 none none 0 Jan  1 00:00 \t ",
+                  ls_head + " \x85", ls_head[:-1], "-rw-rw-rw- 1 none none 0", ""]
+    for ln in no_name_ls:
+        try:
+            l_got = impl.client.parse_list_line_unix(ln.encode("utf-8"))[0]
+        except (ValueError, KeyError, IndexError):
+            l_got = None
+        ctx.case(("list-noname", ln))
+        defer(58, [ln], "parse_list_line_unix(no name)", l_got and canon_ppath(l_got), lambda mo: model_ppath(mo[1][2]) if mo[0] == 0 else None)
+    ctx.count("listing_lines_without_name", len(no_name) + len(no_name_ls))
+    # parser-only stream: hand-made PWD replies (quotes doubled, trailing text, no quotes, unterminated)
+    raw = ['"/a"', ' "/a""b" is cwd', '"/a"""', '""', 'no quotes', ' "/a" "b"', '"/x""""y"', '"""', ' "a', '"/a""" x', '"/a" "" b',
+           '""""', '"""""', '"a"""""', '"a""""" x', '"a"""" x', ' """a"', ' """"a"', '"a"b"c"', '"a""', '"a"" x']
     raw += [" " + '"' + gen_name(rng) + '"' + rng.choice(["", " x", '"']) for _ in range(200)]
+    # ... and every string over {quote, a, space} up to length 6 (9 in thorough): the whole loop, model against code
+    alpha = ['"', "a", " "]
+    top = 9 if ctx.tier == "thorough" else 6
+    layer = [""]
+    for _ in range(top):
+        layer = [x + c for x in layer for c in alpha]
+        raw += layer
     for r in raw:
         got = impl.client.parse_directory_response(r)
         ctx.case(("pdr", r))
         defer(53, [r], "parse_directory_response(raw)", canon_ppath(got), model_ppath)
     ctx.count("raw_directory_responses", len(raw))
+    # formatter/parser pair, bounded-exhaustive: every directory string over {quote, a, space, slash} of length <= 5 (7 in
+    # thorough) below the root, real Server.pwd -> info line as the client sees it (' ' + info, rstripped) -> real
+    # parse_directory_response; oracle: the same PurePosixPath comes back
+    alpha = ['"', "a", " ", "/"]
+    top = 7 if ctx.tier == "thorough" else 5
+    layer, dirs = [""], []
+    for _ in range(top):
+        layer = [x + c for x in layer for c in alpha]
+        dirs += layer
+    n_pair = 0
+    for d in dirs:
+        cwd = P("/" + d)
+        if str(cwd) != str(cwd).rstrip():
+            continue  # a component with trailing whitespace is not a name of the property
+        replies = []
+        c2 = aioftp.Connection(logged=True, current_directory=cwd, response=lambda *a_: replies.append(a_))
+        impl.run(impl.server.pwd(c2, ""))
+        info = replies[0][1]
+        n_pair += 1
+        ctx.case(("pwd-pair", d))
+        if n_pair % 7 == 0:
+            defer(52, [str(cwd)], "pwd_info(exhaustive)", info, lambda mo: sx.txt(mo))
+        got = impl.client.parse_directory_response((" " + info).rstrip())
+        if got != cwd:
+            ctx.violation("PWD info line formatted by the server is parsed by the client to a different directory",
+                          {"key": f"c08-pwd-{shape([d])}", "cwd": str(cwd), "reported": str(got)})
+        # text after the closing quote (257 <quoted> created) is never sent by aioftp's own server: outside the property,
+        # so tied to the model (C08_pwd_trailing_text_ignored) instead of the property oracle
+        line = " " + info + " is the current directory"
+        defer(53, [line], "parse_directory_response(server info + trailing text)", canon_ppath(impl.client.parse_directory_response(line)), model_ppath)
+    ctx.traces_impl += n_pair
+    ctx.count("pwd_pair_exhaustive", n_pair)
     out = ctx.model([(fn, arg) for fn, arg, _, _, _ in pending])
     for (fn, arg, stream, impl_canon, conv), mo in zip(pending, out):
         mc = conv(mo)
@@ -368,6 +440,7 @@ def stream_wire(ctx):
     for k in range(0, len(cases), 20):
         total += wire.run(wire_names(ctx, cases[k: k + 20]), timeout=600)
     ctx.count("wire_name_cases", len(cases))
+    ctx.count("wire_paths_with_quote", sum(any('"' in x for x in c) for c, _ in cases))
     ctx.count("wire_operations", total)
     ctx.sample({"stream": "wire", "paths": ["/" + "/".join(c) for c, _ in cases[:5]]})
 
@@ -376,14 +449,6 @@ def stream_wire(ctx):
 def known(ctx):
     P = pathlib.PurePosixPath
     for f in ctx.kf:
-        if "c08-pwd-quote" in f.get("keys", []):
-            impl = Impl()
-            info, wire_b = impl.pwd_wire(P('/a"b'))
-            kind, val, rest = impl.client_parse(wire_b)
-            got = impl.client.parse_directory_response(val[1][-1])
-            impl.close()
-            if got != P('/a"b'):
-                ctx.known_reproduced(f["id"], f'PWD in directory /a"b: server sends {info!r}, client parses {str(got)!r}')
         if "c08-list-leading-space" in f.get("keys", []):
             client = aioftp.Client()
             got = client.parse_list_line_unix(b"-rw-rw-rw- 1 none none 0 Jan  1 00:00  x\r\n")[0]
@@ -399,7 +464,10 @@ def correspondence(ctx):
         "other generated names as parents: client command bytes (real make_directory/remove_directory/remove_file/change_directory) "
         "-> real parse_command; real pwd handler -> write_response -> parse_response -> parse_directory_response; real "
         "build_mlsx_string on a MemoryPathIO node -> parse_mlsx_line; MLST reply -> info[1].lstrip(); build_list_string -> "
-        "parse_list_line_unix; each stage against the model, decode(encode(name)) = name as oracle; raw directory responses; (wire) "
+        "parse_list_line_unix; each stage against the model, decode(encode(name)) = name as oracle (names with double quotes are "
+        "ordinary cases of every stream); raw directory responses: hand-made, random, and every string over {quote, a, space} up to "
+        "length 6 (thorough: 9) against the model; every directory string over {quote, a, space, slash} up to length 5 (thorough: 7) through real Server.pwd "
+        "and real parse_directory_response, same path back as oracle (with trailing text after the closing quote: against the model); (wire) "
         "real Server+Client over loopback: make_directory, change_directory, get_current_directory, upload_stream (relative), list "
         "(MLSD and raw LIST), stat, is_dir, download_stream, append_stream, rename there and back, remove, remove_directory, the "
         "backend tree compared with the expected tree after every step. Non-trivial = distinct input."
